@@ -7,6 +7,7 @@
 #pragma once
 #include <rapidcheck.h>
 #include <signal.h>
+#include <sys/syscall.h>
 #include <unistd.h>
 #include <fcntl.h>
 #include <chrono>
@@ -100,21 +101,28 @@ static const std::vector<uint64_t>* g_cur_log = nullptr;
 static char g_cur_path[512];
 static char g_header[256];
 static bool g_dumped = false;
-inline void dump_current() {
+// Runs inside sanitizer death callbacks and signal handlers: no instrumented memory accesses (under ThreadSanitizer an
+// instrumented access may need a runtime lock the dying thread already holds - observed as a deadlock), no intercepted
+// libc calls (raw system calls only).
+__attribute__((no_sanitize("thread"))) inline void dump_current() {
   if (g_dumped || !g_cur_log || !g_cur_path[0]) return;
   g_dumped = true;
-  int fd = ::open(g_cur_path, O_WRONLY | O_CREAT | O_TRUNC, 0644);
+  long fd = syscall(SYS_openat, AT_FDCWD, g_cur_path, O_WRONLY | O_CREAT | O_TRUNC, 0644);
   if (fd < 0) return;
-  (void)!::write(fd, g_header, strlen(g_header));
+  size_t hl = 0;
+  while (g_header[hl]) hl++;
+  (void)!syscall(SYS_write, fd, g_header, hl);
   char buf[32];
-  for (uint64_t v : *g_cur_log) {
-    int n = 0; char tmp[24]; uint64_t x = v;
+  const uint64_t* d = g_cur_log->data();
+  size_t cnt = g_cur_log->size();
+  for (size_t i = 0; i < cnt; i++) {
+    int n = 0; char tmp[24]; uint64_t x = d[i];
     do { tmp[n++] = (char)('0' + x % 10); x /= 10; } while (x);
     int k = 0; while (n) buf[k++] = tmp[--n];
     buf[k++] = '\n';
-    (void)!::write(fd, buf, k);
+    (void)!syscall(SYS_write, fd, buf, (size_t)k);
   }
-  ::close(fd);
+  syscall(SYS_close, fd);
 }
 inline void on_abort(int sig) {
   dump_current();
